@@ -1,6 +1,7 @@
 (* C11 -- An unexpected unit only adds its own votes. *)
 From Coq Require Import ZArith QArith List Bool String.
-From Elex Require Import Base.Frame Model.Aggregate Model.BootAgg Proofs.AggregateProofs Proofs.BootAggProofs.
+From Elex Require Import Base.Frame Model.Aggregate Model.BootAgg Model.ContestEffects Proofs.AggregateProofs Proofs.BootAggProofs
+  Proofs.ContestEffectsProofs Gen.Contests.
 Import ListNotations.
 Open Scope Z_scope.
 
@@ -44,3 +45,35 @@ Theorem C11_boot_delta : forall a x rows g,
   (yz_total a (rows ++ [x]) g == yz_total a rows g + (if okey_is (bkf a x) g then b_predm x else 0))%Q.
 Proof. exact boot_delta. Qed.
 Print Assumptions C11_boot_delta.
+
+(* bootstrap, district offices, "leaves every other number unchanged": which contests get a random effect of their own is
+   decided from the expected units only.  The frames the three decisions read are re-derived from
+   BootstrapElectionModel.compute_bootstrap_errors at every run (Gen/Contests.v); finding F19 was all three = AllUnits *)
+Theorem C11_contest_structure_generated :
+  (multi_frame, valid_frame, count_frame) = (Expected, Expected, Expected).
+Proof. reflexivity. Qed.
+Print Assumptions C11_contest_structure_generated.
+
+Theorem C11_contest_effects_independent : forall (e u : list contest),
+  selected multi_frame valid_frame count_frame contest_threshold e u
+  = selected multi_frame valid_frame count_frame contest_threshold e [].
+Proof. exact (expected_only contest_threshold). Qed.
+Print Assumptions C11_contest_effects_independent.
+
+Theorem C11_contest_effects_spec : forall (e u : list contest) (c : contest),
+  In c (selected multi_frame valid_frame count_frame contest_threshold e u) <->
+  In c e /\ (contest_threshold < count c e)%nat /\ multi e (fst c) = true.
+Proof. exact (selected_spec contest_threshold). Qed.
+Print Assumptions C11_contest_effects_spec.
+
+(* witnesses of finding F19: with the unit count, or the at-large test, taken over all units, one unexpected unit changes the
+   contest structure (and with it every prediction) *)
+Theorem C11_count_on_all_units_refuted :
+  selected Expected Expected AllUnits 10 ex_e ex_u <> selected Expected Expected AllUnits 10 ex_e [].
+Proof. exact count_on_all_units_refuted. Qed.
+Print Assumptions C11_count_on_all_units_refuted.
+
+Theorem C11_multi_on_all_units_refuted :
+  selected AllUnits Expected Expected 10 ex_e2 ex_u2 <> selected AllUnits Expected Expected 10 ex_e2 [].
+Proof. exact multi_on_all_units_refuted. Qed.
+Print Assumptions C11_multi_on_all_units_refuted.
